@@ -234,7 +234,10 @@ def check_case(case, obs, diag, want=("C01", "C10", "C05")):
             md = tuple((i, bool(r)) for i, r in ev[3])
             emitted_ext[ev[1]].append((val_from_json(ev[2]), md))
             for i, r in ev[3]:
-                if r and downs[ev[1]]:
+                # the property speaks about elements pushed into a pipeline: an entry point with no
+                # attached consumer (none built, or its only consumer, a finished slice, detached) never
+                # retains or releases, so there is nothing to complete
+                if r and [d for d in downs[ev[1]] if d not in detached]:
                     refs_seen.add(i)
         else:
             arrivals[ev[1]].append(Flush)
@@ -253,14 +256,15 @@ def check_case(case, obs, diag, want=("C01", "C10", "C05")):
             edges.setdefault((src, dst), []).append((x, tuple(mids)))
             if src not in nodes[dst].get("ups", []):
                 findings.append(("C01", "C01/delivery-off-edge", "node %d delivered to %d which is not its downstream" % (src, dst)))
-        if "C01" in want:
+        if True:
             for src, lst in per_src.items():
                 i = 0
                 while i < len(lst):
                     att_now = [d for d in downs[src] if d not in detached]
                     rnd = lst[i:i + len(att_now)]
                     if not att_now or [d for _, d in rnd] != att_now or len({p for p, _ in rnd}) > 1:
-                        findings.append(("C01", "C01/sibling-order/%s" % nodes[src]["k"],
+                        if "C01" in want:
+                          findings.append(("C01", "C01/sibling-order/%s" % nodes[src]["k"],
                                          "event %d: node %d (%s) called downstreams %s, attachment order of the attached ones is %s"
                                          % (ei, src, nodes[src]["k"], [d for _, d in lst], att_now)))
                         break
